@@ -343,4 +343,90 @@ def LScope.rename (ρ : String → String) : LScope → LScope
   | .union op l r names => .union op l r names
   | .wrap i => .wrap i
 
+
+/-- the table aliases and column qualifiers a scope mentions (what a renaming of that scope has to keep apart) -/
+def LScope.names : LScope → List String
+  | .select projs fb srcs =>
+    srcs.map (·.1) ++ (projs.flatMap fun p => p.cols.map (·.1)) ++ fb.cols.map (·.1)
+  | .union _ _ _ _ => []
+  | .wrap _ => []
+
+/-- rename the aliases of scope `k` by `ρs k` — a different renaming per scope -/
+def renameScopes (ρs : Nat → String → String) (scopes : List LScope) : List LScope :=
+  scopes.mapIdx fun k sc => sc.rename (ρs k)
+
+
+/-! ### `exp.expand` (sqlglot/expressions/builders.py:888-931) over flattened scopes
+
+`lineage(…, sources={name: query})` first replaces every table reference whose (normalised) name is a key of `sources`
+by `(<source query>) AS <alias or name> /* source: name */`, recursively inside the inserted query, a FRESH COPY per
+reference.  On flattened scope lists: a `Src.table n` with `n` among the definitions becomes a `Src.scope` pointing at
+a freshly instantiated copy of the definition's scopes (placed before the referencing scope, indices relocated),
+flagged as a derived table carrying the tag `mk n` (`mk = some` for `expand`, `mk = fun _ => none` for writing the
+derived tables inline by hand). -/
+
+structure SrcDef where
+  name : String
+  /-- flattened scopes of the source query, children first, root last -/
+  scopes : List LScope
+
+def findDef (n : String) : List SrcDef → Option SrcDef
+  | [] => none
+  | d :: rest => if d.name = n then some d else findDef n rest
+
+/-- relocate a fragment-relative scope index through the table of already placed scopes -/
+def remapIdx (m : List Nat) (i : Nat) : Nat := (m[i]?).getD i
+
+def remapProj (m : List Nat) (p : Proj) : Proj :=
+  { p with subqs := p.subqs.map fun sq => (remapIdx m sq.1, sq.2) }
+
+/-- a scope that answers every column with the error outcome (cyclic `sources`: the real code does not terminate) -/
+def errScope : LScope := .union "!error" 0 0 []
+
+abbrev RecDef := SrcDef → List LScope → List LScope × Nat
+
+def expSrc (mk : String → Option String) (recDef : RecDef) (defs : List SrcDef) (m : List Nat)
+    (as : String × Src) (out : List LScope) : (String × Src) × List LScope :=
+  match as.2 with
+  | .scope i c r t => ((as.1, .scope (remapIdx m i) c r t), out)
+  | .table n =>
+    match findDef n defs with
+    | none => (as, out)
+    | some d =>
+      let r := recDef d out
+      ((as.1, .scope r.2 false none (mk n)), r.1)
+
+def expSrcs (mk : String → Option String) (recDef : RecDef) (defs : List SrcDef) (m : List Nat) :
+    List (String × Src) → List LScope → List (String × Src) × List LScope
+  | [], out => ([], out)
+  | as :: rest, out =>
+    let r1 := expSrc mk recDef defs m as out
+    let r2 := expSrcs mk recDef defs m rest r1.2
+    (r1.1 :: r2.1, r2.2)
+
+def expScope (mk : String → Option String) (recDef : RecDef) (defs : List SrcDef) (m : List Nat) (sc : LScope)
+    (out : List LScope) : LScope × List LScope :=
+  match sc with
+  | .select projs fb srcs =>
+    let r := expSrcs mk recDef defs m srcs out
+    (.select (projs.map (remapProj m)) (remapProj m fb) r.1, r.2)
+  | .union op l r names => (.union op (remapIdx m l) (remapIdx m r) names, out)
+  | .wrap i => (.wrap (remapIdx m i), out)
+
+/-- place the scopes of one fragment, in order; returns the output list and the index of the fragment's root -/
+def expFrag (mk : String → Option String) (recDef : RecDef) (defs : List SrcDef) :
+    List LScope → List Nat → List LScope → List LScope × Nat
+  | [], m, out => (out, (m.getLast?).getD out.length)
+  | sc :: rest, m, out =>
+    let r := expScope mk recDef defs m sc out
+    expFrag mk recDef defs rest (m ++ [r.2.length]) (r.2 ++ [r.1])
+
+def expandF (mk : String → Option String) (defs : List SrcDef) : Nat → RecDef
+  | 0, _, out => (out ++ [errScope], out.length)
+  | f + 1, d, out => expFrag mk (expandF mk defs f) defs d.scopes [] out
+
+/-- the whole query: (flattened scopes, root index) -/
+def expandQ (mk : String → Option String) (defs : List SrcDef) (fuel : Nat) (main : List LScope) : List LScope × Nat :=
+  expFrag mk (expandF mk defs fuel) defs main [] []
+
 end SqlglotModel.Lineage
